@@ -23,6 +23,14 @@ Definition is_allowed (a : af) (f : string) : bool * af :=
   else if String.eqb f "__typename" then (true, af_zero)
   else match lookup f (af_subs a) with Some s => (true, s) | None => (false, af_zero) end.
 
+(* how filterFields consults a tree along a path of field names: allow-all short-circuits, else IsAllowed *)
+Fixpoint walk_allowed (a : af) (p : list string) : bool :=
+  match p with
+  | [] => true
+  | f :: p' => if af_all a then true else
+               let '(ok, sub) := is_allowed a f in if ok then walk_allowed sub p' else false
+  end.
+
 (* ---------- the JSON forms ---------- *)
 Inductive pj := PStr (s : string) | PArr (l : list pj) | PObj (kvs : list (string * pj)) | PNull | POther.
 
